@@ -176,7 +176,7 @@ url_pattern_component<regex_provider>::compile(
     // keep REGEXP
   } else
 #endif
-      if (part_list->empty()) {
+  if (part_list->empty()) {
     component_type = url_pattern_component_type::EMPTY;
   } else if (part_list->size() == 1) {
     const auto& part = (*part_list)[0];
